@@ -74,7 +74,11 @@ def run_case(case):
             r.label('reused_module')
             fwd = DTCWTForward(biort=b, qshift=twin, J=J)
             fwd(torch.ones(1, case['C'], 8, 8, dtype=tdt))
-            fwd.load_state_dict(DTCWTForward(biort=fb, qshift=fq, J=J).state_dict())
+            fresh = DTCWTForward(biort=fb, qshift=fq, J=J)
+            try:
+                fwd.load_state_dict(fresh.state_dict())
+            except RuntimeError:
+                fwd = fresh         # buffers of the twin do not have the same shapes: no reuse possible
         else:
             fwd = DTCWTForward(biort=fb, qshift=fq, J=J)
     g = 1.0
